@@ -68,6 +68,34 @@ def r05_2(ck: Check) -> None:
                   "a timestamp not strictly later than the parent's is rejected", context=[HORIZON_CTX])
 
 
+def r05_2_clock(ck: Check) -> None:
+    """the clock the bound is taken against is the validator's own: full validation hands its clock parameter on unchanged, and
+    every caller supplies int(time()) read at the call"""
+    q = "skepticoin.coinstate.CoinState.add_block"
+    summ = ck.summ(q, 0)
+    sp = Spec(summ, ("self", "block", "now"))
+    from ..engine.match import require_call
+    require_call(ck, "R05.2", summ, sp, CONS + "validate_block_by_itself", ["block", "now"],
+                 "full validation checks the block against the clock value it was given (not a clamped / adjusted one)")
+    clock = ("call", ("g", "builtin:int"), (("call", ("g", "ext:time.time"), (), ()),), ())
+    n = 0
+    from .common import functions_mentioning
+    for needle, target, pos in (("validate_block_by_itself", CONS + "validate_block_by_itself", 1), ("add_block(", "skepticoin.coinstate.CoinState.add_block", 1)):
+        for fi in functions_mentioning(ck, needle):
+            if fi.qualname == q or fi.module.name.startswith("skepticoin.scripts") and False:
+                continue
+            s = ck.summ(fi.qualname, 0)
+            for e in s.events:
+                if e.kind == "call" and not e.chain and target in e.targets and len(e.term[2]) > pos:
+                    n += 1
+                    construct = "%s: %s is given int(time()) as the validator's clock" % (short(fi.qualname), target.split(".")[-1])
+                    if e.term[2][pos] == clock:
+                        ck.ok("R05.2", construct, "", e.loc)
+                    else:
+                        ck.violated("R05.2", construct, "the clock argument is %s" % show(e.term[2][pos])[:120], e.loc)
+    ck.expect_count("R05.2", "validator clock call sites", n, 2)
+
+
 def r05_3(ck: Check) -> None:
     s2 = ck.summ(CONS + "validate_block_in_coinstate")
     sp2 = Spec(s2, ("block", "cs"))
@@ -252,7 +280,7 @@ def check(ck: Check) -> None:
         "C05: presence, operands, direction and reachability of every header guard on the full-validation path; retarget formula as a normalised "
         "integer expression with folded constants; constructor/validator agreement by call identity and argument roles.")
     ck.run("R05.1", "id < target", lambda: r05_1(ck))
-    ck.run("R05.2", "timestamp bounds", lambda: r05_2(ck))
+    ck.run("R05.2", "timestamp bounds", lambda: (r05_2(ck), r05_2_clock(ck)))
     ck.run("R05.3", "parent known", lambda: r05_3(ck))
     ck.run("R05.4", "stated target = prescribed target", lambda: r05_4(ck))
     ck.run("R05.5", "retarget formula", lambda: r05_5(ck))
